@@ -13,7 +13,7 @@ import numpy as np
 import z3
 
 from vlib import env, gen
-from vlib.zrun import explore_and_prove, eq_term, concretize, pyrepr
+from vlib.zrun import wrapper_exc, explore_and_prove, eq_term, concretize, pyrepr
 from vlib.zsym import Real, SymNum, SymTypeError, lift, model_value, _q
 
 META = {
@@ -125,7 +125,7 @@ def task_sane(systems):
         res["solver_s"] += o.solver_s
         res["inconclusive"] += o.inconclusive
         for p, m, g in o.failed[:1]:
-            res["violations"].append(dict(key="sane:%s" % p.kind, soft=isinstance(p.value, SymTypeError),
+            res["violations"].append(dict(key="sane:%s" % p.kind, soft=wrapper_exc(p.value),
                                           desc="%s x=%s c0=%s -> %r" % (eq_strs, concretize(m, x), concretize(m, c0), p.value),
                                           replay_src=REPLAY_SANE % dict(eqs=eq_strs, c0=pyrepr(dict(zip(keys, concretize(m, c0)))),
                                                                         x=pyrepr(dict(zip(keys, concretize(m, x)))))))
@@ -251,7 +251,7 @@ def task_precip(systems):
         res["solver_s"] += o.solver_s
         res["inconclusive"] += o.inconclusive
         for p, m, g in o.failed[:1]:
-            res["violations"].append(dict(key="precip:%s" % p.kind, soft=isinstance(p.value, SymTypeError),
+            res["violations"].append(dict(key="precip:%s" % p.kind, soft=wrapper_exc(p.value),
                                           desc="%s x=%s K=%s -> %r" % (eq_strs, concretize(m, x), concretize(m, Ks), p.value),
                                           replay_src=REPLAY_PRECIP % dict(eqs=eq_strs, x=pyrepr(dict(zip(keys, concretize(m, x)))),
                                                                           K=pyrepr(concretize(m, Ks)))))
